@@ -395,8 +395,11 @@ func runConc(c *concCase, w *sw.World, assign map[string]concLookup) (*sw.Ops, [
 			}(ci, gi, ls)
 		}
 	}
+	sch.Workers = "golang.org/x/mod/sumdb."
 	sch.Run(func() bool { return int(done.Load()) == total })
-	wg.Wait()
+	if !sch.Deadlock {
+		wg.Wait() // (after a deadlock the lookups never return; their goroutines are abandoned)
+	}
 	return ops, cops, outs, sch, st
 }
 
@@ -409,6 +412,15 @@ func checkConc(c *concCase) pbt.Result {
 	w := sw.New(sw.Config{H: c.H, NA: c.NA, Fork: c.P, NB: c.NB, Seed: int64(c.Seed), Extra: c.Extra})
 	assign := assignment(c, w)
 	ops, cops, outs, sch, st := runConc(c, w, assign)
+	if sch.Deadlock {
+		r.NonTrivial = true
+		r.Fail = pbt.Failf("lookups-deadlocked", "the lookups never return: %v\nschedule (%d decisions): %v", sch.Err, len(sch.History), sch.History)
+		if len(c.History) == 0 {
+			c.History = append([]string(nil), sch.History...)
+			c.Choices = nil
+		}
+		return r
+	}
 	if sch.Err != nil {
 		r.Skip = true
 		r.Classes = []string{"inconclusive: " + strings.SplitN(sch.Err.Error(), ":", 2)[0]}
